@@ -306,7 +306,16 @@ Proof.
   - (* EHas *) go IH.
   - (* EToEntries *) go IH.
   - (* EFromEntries *) go IH.
-  - (* EWithEntries *) exact I.
+  - (* EWithEntries *)
+    cbn [afree] in Hf.
+    apply each_ext. intros c st0 _. apply ext_bind_pure. intros n. apply ext_bind_pure. intros [items|]; [|apply ext_ok].
+    destruct (alloc_repl st0 c (Seq items)) as [ep st1] eqn:Ha.
+    assert (He : ext st0 st1).
+    { unfold alloc_repl, alloc in Ha. injection Ha as <- <-. eexists. reflexivity. }
+    eapply ext_res_weaken; [exact He|].
+    apply ext_bind; [apply each_ext; intros it st2 _; apply IH; exact Hf|]. intros o Ho.
+    apply ext_bind_pure. intros coll. apply ext_bind_pure. intros es.
+    destruct (dup_keys es); [exact I | apply ext_alloc_fresh].
   - (* EReverse *) go IH.
   - (* EUniqueBy *) go IH.
   - (* EGroupBy *) go IH.
